@@ -10,7 +10,7 @@ MODULE = 'GeoVerif.Props.C02'
 THEOREMS = ['GV.C02.' + t for t in (
     'findIntersection_isSome_iff', 'findIntersection_comm', 'findIntersection_point', 'sweep_eq_anyCross',
     'sweep_symm', 'sweep_congr', 'sweep_flip', 'intersects_symm', 'relate_total', 'line_contains_iff_sublist',
-    'contains_imp_intersects', 'relate_dt_free')]
+    'contains_imp_intersects', 'relate_dt_free', 'intersects_iff_spec', 'intersects_point_iff', 'contains_iff_spec')]
 
 
 def _coord(p):
